@@ -51,7 +51,8 @@ def cases(kinds, rng, statuses=(200, 400, 401, 500, 503), success_docs=3, with_e
                     i += 1
                     cts = [JSON, None, b"text/html", b"application/json; charset=utf-8"]
                     ct = cts[(i + bi) % len(cts)]
-                    out.append((line(a, kind, st, ct, body, pad=(i % 2)), "same/%s/%s" % (kind, a)))
+                    # (the framing of the reply rotates with the padding: Content-Length, chunked, close-delimited, HTTP/1.0 close-delimited)
+                    out.append((line(a, kind, st, ct, body, pad=(i % 4)), "same/%s/%s" % (kind, a)))
             if a != "curl":
                 # a repeated Content-Type header: the first value is the reply's (libcurl reports the last: ASSUMPTIONS of C09)
                 out.append((line(a, kind, 200, b"text/html\napplication/json", ok_docs[0]), "same/%s/%s" % (kind, a)))
@@ -84,7 +85,10 @@ def poll_cases(rng, adapters=ADAPTERS):
     out = []
     for a in adapters:
         for k, (st, ct, body) in enumerate(replies):
-            out.append((line(a, "devpoll", st, ct, body, pad=k % 2), "same/devpoll/%s" % a))
+            out.append((line(a, "devpoll", st, ct, body, pad=k % 4), "same/devpoll/%s" % a))
+            # the first exchange of the session is cut short after part of its body, the following ones are served in full: a
+            # transport failure, back-off, then the reply - through every adapter as with an in-memory client failing once
+            out.append((line(a, "devpoll", st, ct, body, pad="%d+failfirst" % (k % 4)), "same-failfirst/devpoll/%s" % a))
             if a == "reqwest":
                 # the future-based twin of the session, through the crate's AsyncHttpClient for reqwest::Client
                 out.append((line(a, "devpoll_async", st, ct, body, pad=k % 2), "same/devpoll-async/%s" % a))
